@@ -363,7 +363,7 @@ class YP(object):
             name = term._name
             args = term._args
         elif isinstance(term, Atom):
-            name = term
+            name = term._name
             args = []
 
         remaining_clauses = self._find_predicates(name, len(args))[:]
@@ -386,7 +386,7 @@ class YP(object):
             name = term._name
             args = term._args
         elif isinstance(term, Atom):
-            name = term
+            name = term._name
             args = []
         remaining_clauses = []
         for clause in self._find_predicates(name, len(args)):
